@@ -181,11 +181,11 @@ func (w *world) enumCol(name string, e int) *schema.Column {
 	return schema.NewColumn(name).SetType(t)
 }
 
-// tname: the SQL name of base name n. 0..29: "t%02d". 30+3k+v (k = 0..9): the three spellings of one name --
+// tname: the SQL name of base name n. 0..12: "t%02d". 13+3k+v (k = 0..28): the three spellings of one name --
 // v = 0 "u%02dA", v = 1 "u%02da" (equal up to letter case), v = 2 "u%02da " (trailing space). The numbering follows
 // the byte order of the strings (byKeys in sortMap sorts the names), so that the model, where a name is a
 // number, visits the names in the same order. To the planner these are simply different names.
-const twinBase = 30
+const twinBase = 13
 
 func twin(k, v int) int { return twinBase + 3*k + v }
 
